@@ -498,6 +498,34 @@ def literal_history(ctx, rng):
         ctx.nontrivial(("literal-history", v))
 
 
+def literal_powers(ctx, rng):
+    """integer literals raised to NEGATIVE integer literals are exact rationals (3 ** -1 is 1/3, not 0.333…): placed where a rounding
+    error of one unit in the last place is amplified — floor division, remainder, floor/ceiling at an integer boundary, huge
+    cancelling factors"""
+    n = E.num
+    for i in range(ctx.n(60, 600)):
+        b = rng.choice([3, 7, 10, 49, 6, 11, 13])
+        e = rng.choice([1, 1, 2, 3])
+        k = rng.randint(1, 9)
+        pw = E.bin_("**", n(b), E.neg(n(e)))                    # b ** -e
+        spw = rng.choice([f"{b} ** -{e}", f"{b} ** (-{e})", f"{b}^-{e}"])
+        forms = [
+            (f"{k} // {spw}", E.bin_("//", n(k), pw)),
+            (f"{k} % {spw}", E.bin_("%", n(k), pw)),
+            (f"{b ** e} * {spw} // 1", E.bin_("//", E.bin_("*", n(b ** e), pw), n(1))),
+            (f"floor({k * b ** e} * {spw} * N)", E.app("floor", E.bin_("*", E.bin_("*", n(k * b ** e), pw), E.sym("N")))),
+            (f"ceiling({k} * {spw} * N) + x ** {spw}", E.bin_("+", E.app("ceiling", E.bin_("*", E.bin_("*", n(k), pw), E.sym("N"))), E.bin_("**", E.sym("x"), pw))),
+            (f"10 ** -{300 + k} * 10 ** {300 + k}", E.bin_("*", E.bin_("**", n(10), E.neg(n(300 + k))), E.bin_("**", n(10), n(300 + k)))),
+        ]
+        s_, t_ = forms[i % len(forms)]
+        before = len(ctx.violations)
+        got = check_string(ctx, s_, t_, rng, "integer literal raised to a negative integer literal")
+        if len(ctx.violations) > before:
+            return
+        ctx.stats["literal_power_strings"] += 1
+        ctx.nontrivial(("literal-power", s_))
+
+
 def run(ctx, widen=False):
     rng = ctx.rng
     known_witnesses(ctx)
@@ -515,6 +543,8 @@ def run(ctx, widen=False):
         random_strings(ctx, rng)
     if not ctx.violations:
         literal_history(ctx, rng)
+    if not ctx.violations:
+        literal_powers(ctx, rng)
     model_correspondence(ctx, rng)
 
 
